@@ -256,13 +256,15 @@ imbh_print_variants(FILE *f, const imbh_variant *v, const int n)
 {
         static const char *const arch[] = { "none", "sse", "avx2", "avx512" };
 
-        fprintf(f, "# variant used_arch features type(mgr) type(features) aliases\n");
+        fprintf(f, "# variant used_arch features type(mgr) type(features) handler-hash aliases\n");
         for (int i = 0; i < n; i++)
-                fprintf(f, "variant=%s used_arch=%u(%s) features=0x%llx type=t%u ftype=t%u aliases=%s\n",
+                fprintf(f,
+                        "variant=%s used_arch=%u(%s) features=0x%llx type=t%u ftype=t%u "
+                        "fnhash=%016llx aliases=%s\n",
                         v[i].name, v[i].used_arch,
                         v[i].used_arch < IMB_ARCH_NUM ? arch[v[i].used_arch] : "?",
                         (unsigned long long) v[i].features, v[i].arch_type, v[i].want_type,
-                        v[i].aliases[0] ? v[i].aliases : "-");
+                        (unsigned long long) v[i].fn_hash, v[i].aliases[0] ? v[i].aliases : "-");
 }
 
 /* ========================================================================= */
@@ -448,6 +450,8 @@ imbh_item_parse(const char *line, imbh_item *it)
                         it->xbits = (int64_t) u;
                 else if (KEY("xstatus"))
                         it->xstatus = (int) u;
+                else if (KEY("xloose"))
+                        it->xloose = u != 0;
                 else
                         ITEM_FAIL("unknown token %.*s", (int) klen, k);
 #undef KEY
@@ -714,6 +718,8 @@ prep_auth_keys(IMB_MGR *mgr, const imbh_item *it, struct imbh_keys *k)
         case IMB_AUTH_MD5:
         case IMB_AUTH_HMAC_SM3:
                 imb_hmac_ipad_opad(mgr, it->hash, key, n, k->ipad, k->opad);
+                if (imb_get_errno(mgr) != 0) /* e.g. HMAC-MD5 key longer than a block */
+                        return IMBH_EPREP_AKEY;
                 break;
         case IMB_AUTH_AES_XCBC:
                 IMB_AES_XCBC_KEYEXP(mgr, key, k->k1_exp, k->k2, k->k3);
